@@ -397,7 +397,9 @@ func (a *AliveDialerSet) NotifyLatencyChange(dialer *Dialer, alive bool) {
 			a.log.WithFields(logrus.Fields{
 				"group":   a.dialerGroupName,
 				"network": a.CheckTyp.String(),
-				"dialer":  a.minLatency.dialer.property.Name,
+				// Not a.minLatency.dialer: the lock was dropped for the
+				// callback above and another report may have cleared it.
+				"dialer": dialer.property.Name,
 			}).Infof("Group selects dialer")
 		}
 	}
